@@ -8,6 +8,7 @@ GInit == Init /\ h = <<>>
 GNext == \/ (LoopStep /\ UNCHANGED h)
          \/ \E j \in Jobs : \/ (WorkerStart(j) /\ UNCHANGED h)
                             \/ (WorkerFinish(j) /\ UNCHANGED h)
+                            \/ (WorkerReturn(j) /\ UNCHANGED h)
                             \/ (WorkerBodyEnd(j) /\ h' = Append(h, j))
 GSpec == GInit /\ [][GNext]_<<vars, h>>
 JobSeq(S) == LET RECURSIVE F(_) F(T) == IF T = {} THEN <<>> ELSE LET x == CHOOSE y \in T : TRUE IN <<x>> \o F(T \ {x}) IN F(S)
